@@ -61,7 +61,7 @@ func (h *harnessDb) readsX() string {
 			// sorted by a field of the root store, so that the sorting scanner (not the id cursor) answers
 			sortBy := "id"
 			if rd := h.w.store(rootName(def)); rd != nil && len(rd.Fields) > 0 {
-				sortBy = rd.Fields[0].Name
+				sortBy = rd.Fields[0].symName()
 			}
 			ids, _, err := gs.QueryIds(tx, "true sort by "+sortBy+" limit none")
 			q := make([]string, 0, len(ids))
@@ -96,6 +96,9 @@ func (h *harnessDb) readsX() string {
 				}
 				fmt.Fprintf(&sb, " LF:%s:%s:isSystem:b%s", def.Name, hxs(id), b01(e.IsSystem))
 			}
+		}
+		if c15PagedOn {
+			h.c15PagedReads(tx, &sb) // QP tokens (c15_paging.go)
 		}
 		return nil
 	})
@@ -547,6 +550,7 @@ func runHistoryX(w *wiring, txs []hTx, dir string) (string, string, error) {
 
 func runStoreX(o *opts) error {
 	profile := o.get("profile", "c16")
+	c15PagedOn = o.get("profile", "") != "c16" // the C16 check does not look at the paged reads
 	cases := newLineWriter(o.out, "cases.txt")
 	impl := newLineWriter(o.out, "impl.txt")
 	defer cases.close()
